@@ -91,7 +91,7 @@ theorem hdrUnmarshal_wire (h : Header) (hwf : wfH h = true) (r : Header) (tail :
       simp [rep]; omega
     have hwc : (round4 body.length / 4).toUInt16.toNat * 4 = round4 body.length :=
       wordCount_roundtrip _ (round4_mod _) (by have := round4_lt body.length; have := round4_mod body.length; omega)
-    simp only [f02, f03, f04, f11, f12, hx, if_true, rd16_be16, hwc]
+    simp only [f02, f03, f04, f11, f12, if_true, rd16_be16, hwc]
     rw [if_neg (by simp only [List.length_append, hblock]; omega)]
     rw [show List.take (round4 body.length) ((body ++ rep (round4 body.length - body.length) 0) ++ tail)
         = body ++ rep (round4 body.length - body.length) 0 by
